@@ -77,6 +77,14 @@ def extract(F):
     return fn, {k: [c for c, _ in v] for k, v in tables.items()}
 
 
+def _same_vec(vec, arg):
+    """the vector receiving the pushes is (one of) the vector(s) whose into_iter is returned: every alternative of `vec` (one
+    local filled in several arms reads as a φ of the arms' `Vec::new()`) is an alternative of the returned one"""
+    av = {P.strip(x, calls=False) for x in P.alts(P.strip(vec, calls=False))}
+    aa = {P.strip(x, calls=False) for x in P.alts(P.strip(arg, calls=False))}
+    return bool(av) and av <= aa
+
+
 def _all_suits_domain(F, fn, lp):
     """the loop runs over all four suits, each once: SuitRange::all() or a constant array of the four suits, not adapted"""
     src, chain = lp.chain()
@@ -154,7 +162,7 @@ def _pushed_into_returned_vec(fn, pr, loop, bi, t, every=True):
     vec = P.strip(pr.operand(fn.blocks[pushed[0]]["term"]["args"][0]), calls=False)
     rets = [P.strip(a, calls=False) for a in P.alts(pr.local(0))]
     return any(r[0] == "call" and r[1].rsplit("::", 1)[-1] == "into_iter" and r[2] and
-               any(P.strip(x, calls=False) == vec for x in P.alts(P.strip(r[2][0], calls=False))) for r in rets)
+               _same_vec(vec, r[2][0]) for r in rets)
 
 
 def _arm_tuples(F, fn, pr):
@@ -411,7 +419,7 @@ def variant_comprehension(F, fn, pr, fl, bi, t):
                 vec = P.strip(rp.operand(fn.blocks[pushes[0]]["term"]["args"][0]), calls=False)
                 rets_v = [P.strip(a, calls=False) for a in P.alts(rp.local(0))]
                 if not any(r[0] == "call" and r[1].rsplit("::", 1)[-1] == "into_iter" and r[2] and
-                           any(P.strip(x_, calls=False) == vec for x_ in P.alts(P.strip(r[2][0], calls=False))) for r in rets_v):
+                           _same_vec(vec, r[2][0]) for r in rets_v):
                     return None
             elif pushes:
                 return None
@@ -525,7 +533,7 @@ def expand_comprehension(F, fn, pr, fl, bi, t, cards):
     vec = P.strip(pr.operand(fn.blocks[pushed[0]]["term"]["args"][0]), calls=False)
     rets = [P.strip(a, calls=False) for a in P.alts(pr.local(0))]
     if not any(r[0] == "call" and r[1].rsplit("::", 1)[-1] == "into_iter" and r[2] and
-               any(P.strip(x, calls=False) == vec for x in P.alts(P.strip(r[2][0], calls=False))) for r in rets):
+               _same_vec(vec, r[2][0]) for r in rets):
         raise Unrecognised("combos", "the vector the loop fills is not the one the arm iterates", fn.path, fn.line)
     hs = sorted(loops)
     out = []
